@@ -31,9 +31,9 @@ TRUSTED = ['float64 evaluation of compute_area on integer-valued coordinates is 
            'offset 0, the offsets arrays passed',
            'pyarrow buffers() export (harness/common.py export_listarr, harness/c14_util.py view_of)']
 
-IMPORTS = 'Model.Num Model.Arrow Model.Measures Model.Orient'
+IMPORTS = 'Model.Num Model.Arrow Model.Measures Model.Orient Spec.MeasuresSpec'
 VIEW = '(list bool * list (list nat) * list num)'
-FN = "fun '(k, a) => if wf_listarr a then Some (oriented_views k a) else None"
+FN = "fun '(k, a) => if wf_listarr a && even_inner a then Some (oriented_views k a) else None"
 CASE_TY = 'kind * listarr'
 RES_TY = f'option ({VIEW} * {VIEW})'
 
